@@ -330,6 +330,16 @@ def canon_outcome(r):
     return r[:2]
 
 
+FIXED = [
+    ('start = { nm ~ #tg = ("(" ~ arg ~ ("," ~ arg)* ~ ")") }\nnm = { "a"+ }\narg = { "b" }\n', "ab(),"),
+    ('start = { #tg = (sr | nr ~ "b") ~ nr? }\nsr = _{ nr ~ "a" }\nnr = { "a" }\n', "ab"),
+    ('start = { #tg = nr ~ (#tg = (nr) ~ "b")* }\nnr = { "a" }\nWHITESPACE = _{ " " }\n', "ab "),
+    ('start = { PUSH(nr) ~ (PEEK ~ "b" | POP ~ nr) ~ DROP? }\nnr = { "a" }\n', "ab"),
+    ('start = { at ~ (cp | nr)* }\nat = @{ "a" ~ nr? }\ncp = ${ "b" ~ nr }\nnr = { "a" }\nWHITESPACE = { " " }\n', "ab "),
+    ('start = !{ #tg = (at) ~ "b"? }\nat = @{ nr ~ (#tg = nr)? }\nnr = { "a" }\n', "ab"),
+]
+
+
 def check(tier: str, seed: int):
     from checks import Result
     res = Result()
@@ -354,6 +364,12 @@ def check(tier: str, seed: int):
         texts[gp] = c["grammar"]
         ins = list(gen.all_strings(c["alphabet"], 3))
         by_g[gp] = [(r, t) for r in c["rules"][:1] for t in ins]
+    # fixed grammars in which an abandoned attempt has consumed a pending tag, pushed or popped stack entries or
+    # changed the atomic depth before it fails: every site gets the NEVER-rewrites many times over
+    for i, (gtext, alpha) in enumerate(FIXED):
+        gp = f"synthetic-fixed-{i}"
+        texts[gp] = gtext
+        by_g[gp] = [("start", t) for t in gen.all_strings(alpha, 4)]
     for gpath, samples in sorted(by_g.items()):
         if len(samples) > 60:
             samples = rng.sample(samples, 60)
@@ -362,6 +378,10 @@ def check(tier: str, seed: int):
         if gpath.startswith("synthetic"):
             parts = 1
         for i in range(parts):
+            if gpath.startswith("synthetic-fixed"):
+                for j in range(4):
+                    work_items.append((gpath, texts[gpath], samples, seed * 100 + 50 + j, 40, 2))
+                continue
             work_items.append((gpath, texts[gpath], samples, seed * 100 + i,
                                max(1, (n_rew // 3 if gpath.startswith('synthetic') else n_rew) // parts), 4))
     ctx = mp.get_context("fork")
